@@ -291,6 +291,9 @@ def build_scheduler(desc, sort_wrapper=None):
         if sd.get("user_pre"):
             from .userext import minimal_pre_classes
             cls = minimal_pre_classes()[0 if sd["algo"] == "greedy" else 1]
+        if sd.get("user_min") is not None:
+            from .userext import guaranteed_minimum_classes
+            cls = guaranteed_minimum_classes(sd["user_min"])[0 if sd["algo"] == "greedy" else 1]
         kw = dict(estimate_max_rate=est is not None, max_rate_estimator=est,
                   uninterrupted_charging=bool(sd.get("unint")))
         if sd.get("over"):
